@@ -377,7 +377,12 @@ func HashAccessFunction(name string) ZlispUserFunction {
 			n := len(hash.KeyOrder)
 			arr := &SexpArray{Env: env}
 			for i := 0; i < n; i++ {
-				keys = append(keys, (hash.KeyOrder)[i])
+				k := (hash.KeyOrder)[i]
+				if ka, isArr := k.(*SexpArray); isArr {
+					// the caller's copy: changing it must not change the key
+					k = copyArrayKey(ka, 0)
+				}
+				keys = append(keys, k)
 
 				// try to get a .Typ value going too... from the first available.
 				// (the type of the array: a slice of the key's type)
